@@ -39,7 +39,7 @@ CONSTANTS Source,      \* "enum" | "file"
 
 AllKinds == {"module", "class", "function", "method", "attribute"}
 AllFmts  == {"epytext", "restructuredtext", "google", "numpy"}
-Probs    == {"xref", "markup", "unkfield", "param"}
+Probs    == {"xref", "markup", "unkfield", "param", "tfield"}
 Poss     == {"p1", "p2l2", "item", "field", "own"}
 
 \* ------------------------------------------------------------------ layouts
@@ -61,6 +61,10 @@ WellFormed(l) ==
     \* cons: reST CONSOLIDATED field, definition-list form (":Parameters:" / "    name" / "        description"): every item is a
     \* field of its own, located by the line of its term (restructuredtext.py handle_consolidated_definition_list)
     /\ (l.cons => l.fmt = "restructuredtext" /\ l.prob = "param" /\ ~l.raw /\ l.k = 0 /\ ~l.longws /\ l.lead = "none" /\ l.sep = "none")
+    \* tfield (run with --process-types): the docstring of a class / module documents an attribute y with an "ivar" field and
+    \* gives its type in a "type" field whose text is an unresolvable name
+    /\ (l.prob = "tfield" => l.fmt \in {"epytext", "restructuredtext"} /\ l.kind \in {"class", "module"} /\ ~l.raw /\ l.k = 0
+                              /\ ~l.longws /\ l.lead = "none" /\ l.sep = "none" /\ ~l.cons)
     \* tight: the closing quotes stand on the last line of text instead of a line of their own
     /\ (l.tight => l.fmt = "google" /\ l.prob = "xref" /\ l.pos = "field" /\ l.kind \in {"module", "attribute"}
                     /\ ~l.raw /\ l.k = 0 /\ ~l.longws /\ l.lead = "none")
@@ -107,7 +111,8 @@ Mark0(l) ==
                              [] l.fmt = "google" -> [first |-> 9, at |-> 11]                              \* Note: / body / body
                              [] l.fmt = "numpy"  -> [first |-> 9, at |-> 12])                             \* Note / ---- / body / body
     [] l.pos = "own" ->
-         (CASE l.cons -> [first |-> 14, at |-> 14]                \* :note: (9-10)  :Parameters:  a  the arg  nosuch  text
+         (CASE l.prob = "tfield" -> [first |-> 12, at |-> 12]     \* :note: (9-10)  ivar y (11)  type y (12)
+            [] l.cons -> [first |-> 14, at |-> 14]                \* :note: (9-10)  :Parameters:  a  the arg  nosuch  text
             [] l.fmt \in {"epytext", "restructuredtext"} -> [first |-> 11, at |-> 11]
             [] l.fmt \in {"google", "numpy"} /\ l.prob = "unkfield" -> [first |-> 9, at |-> 9]  \* ':unknownfield: text' + blank before Note
             [] l.fmt = "google" /\ l.prob = "param" /\ ~l.typed -> [first |-> 15, at |-> 15]   \* Note(9-11) blank Args: a nosuch
@@ -120,6 +125,7 @@ Mark(l) == [first |-> Mark0(l).first + LeadLen(l), at |-> Mark0(l).at + LeadLen(
 DocLen0(l) ==
   LET shift == IF l.prob = "unkfield" /\ l.fmt \in {"google", "numpy"} THEN 2 ELSE 0 IN
   CASE l.cons -> 16
+    [] l.prob = "tfield" -> 13
     [] l.fmt \in {"epytext", "restructuredtext"} -> IF l.pos = "own" THEN 12 ELSE 11
     [] l.fmt = "google" -> shift + 12 + (IF l.typed THEN 6 ELSE IF HasArgs(l) THEN 3 + (IF l.prob = "param" THEN 1 ELSE 0) ELSE 0)
     [] l.fmt = "numpy"  -> shift + 13 + (IF l.typed THEN 11 ELSE IF HasArgs(l) THEN 5 + (IF l.prob = "param" THEN 2 ELSE 0) ELSE 0)
@@ -195,9 +201,18 @@ Offset(l) ==
     [] l.prob = "markup" /\ RstFamily(l)       -> ReportErrorsOffset(ParserFirst(l) + (IF RstLineNotConverted THEN 1 ELSE 0))
     [] l.prob = "xref" /\ l.fmt = "epytext"    -> ParserFirst(l)                               \* epytext.py to_node: lineno attr of the link = startline
     [] l.prob = "xref" /\ RstFamily(l)         -> ParserAt(l)                                  \* epydoc/docutils.py:108-146 get_lineno
-    [] l.prob \in {"unkfield", "param"} /\ l.fmt = "epytext" -> ParserFirst(l)                \* Field(.., lineno) ; Field.report
-    [] l.prob \in {"unkfield", "param"} /\ RstFamily(l)      -> (ParserFirst(l) + 1) - 1      \* restructuredtext.py:282 node.line - 1
+    [] l.prob \in {"unkfield", "param", "tfield"} /\ l.fmt = "epytext" -> ParserFirst(l)                \* Field(.., lineno) ; Field.report
+    [] l.prob \in {"unkfield", "param", "tfield"} /\ RstFamily(l)      -> (ParserFirst(l) + 1) - 1      \* restructuredtext.py:282 node.line - 1
 \* model.py:403-408   linenumber = self.docstring_lineno or self.linenumber ; linenumber += lineno_offset
+\* tfield: the unresolvable type is reported a SECOND time when the attribute itself is rendered: against the attribute, whose
+\* docstring_lineno is already the line of its ivar field (extract_fields: obj.docstring_lineno + field.lineno), plus the
+\* line of the type field counted from the top of the PARENT's docstring (ParsedTypeDocstring(.., lineno=field.lineno)): the
+\* offset of the ivar field is added to a line that is not relative to it          (deviation TypeOffsetAddedTwice)
+IvarOffset == 11
+SecondLine(l) == IF l.prob = "tfield" THEN DocstringLine(l) + IvarOffset + Offset(l) ELSE 0
+ExpectedCount(l) == IF l.prob = "tfield" THEN 2 ELSE 1
+\* known finding (findings.d/C16.json  type-field-offset-added-twice)
+KF_TypeTwice(l, line) == l.prob = "tfield" /\ line = SecondLine(l) /\ line \notin Acceptable(l)
 \* The line does not depend on what was asked of the object before: the summary (made of copies of the first paragraph's
 \* nodes, SummaryExtractor, markup/__init__.py:420-480) may or may not have been extracted when the body is rendered.
 Histories == {"render", "summary;render"}
@@ -223,6 +238,7 @@ ImplAcceptable == Source = "enum" =>
                     (\/ ReportedLine(lay) \in Acceptable(lay) \/ KF_RstLineNotConverted(lay, ReportedLine(lay))
                      \/ KF_LeadingWs(lay, ReportedLine(lay)) \/ KF_Napoleon(lay, ReportedLine(lay))
                      \/ KF_DocutilsSep(lay, ReportedLine(lay)))
+ImplSecondAcceptable == Source = "enum" => (SecondLine(lay) = 0 \/ SecondLine(lay) \in Acceptable(lay) \/ KF_TypeTwice(lay, SecondLine(lay)))
 ImplAcceptableStrict == Source = "enum" => ReportedLine(lay) \in Acceptable(lay)
 ReportedLineH(l, h) == ReportedLine(l)
 HistoryIndependent == \A h1, h2 \in Histories : ReportedLineH(lay, h1) = ReportedLineH(lay, h2)
@@ -230,24 +246,29 @@ HistoryIndependent == \A h1, h2 \in Histories : ReportedLineH(lay, h1) = Reporte
 ImplShift == Source = "enum" => ReportedLine(lay) - ReportedLine([lay EXCEPT !.k = 0]) = lay.k
 
 \* code -> spec : judged on OBSERVED lines
-ObsOne        == Source = "file" => Len(Observed[obs].lines) = 1                 \* exactly the planted problem is reported
-ObsAcceptable == (Source = "file" /\ Len(Observed[obs].lines) = 1) => Observed[obs].lines[1] \in Acceptable(lay)
-ObsConforms   == (Source = "file" /\ Len(Observed[obs].lines) = 1) => Observed[obs].lines[1] = ReportedLine(lay)
+ObsLines == Observed[obs].lines
+ObsOne        == Source = "file" => Len(ObsLines) = ExpectedCount(lay)      \* exactly the planted problem is reported
+ObsAllIn      == Len(ObsLines) = ExpectedCount(lay) /\ \A k \in 1..Len(ObsLines) : ObsLines[k] \in Acceptable(lay)
+ObsAcceptable == (Source = "file" /\ Len(ObsLines) = ExpectedCount(lay)) => ObsAllIn
+ObsAsModel    == /\ Len(ObsLines) = ExpectedCount(lay)
+                 /\ {ObsLines[k] : k \in 1..Len(ObsLines)} = {ReportedLine(lay)} \cup (IF SecondLine(lay) > 0 THEN {SecondLine(lay)} ELSE {})
+ObsConforms   == Source = "file" => ObsAsModel
+ObsKnown == Len(ObsLines) = ExpectedCount(lay) /\ \A k \in 1..Len(ObsLines) :
+               \/ ObsLines[k] \in Acceptable(lay)
+               \/ KF_RstLineNotConverted(lay, ObsLines[k]) \/ KF_LeadingWs(lay, ObsLines[k]) \/ KF_Napoleon(lay, ObsLines[k])
+               \/ KF_DocutilsSep(lay, ObsLines[k]) \/ KF_TypeTwice(lay, ObsLines[k])
 
 \* ------------------------------------------------------------------ emission
 Rec(l) == [lay |-> l, quote |-> QuoteLine(l), text0 |-> TextLine0(l), first |-> FirstLine(l), at |-> AtLine(l),
            close |-> CloseLine(l), lo |-> (IF l.fmt \in {"epytext", "restructuredtext"} THEN FirstLine(l) ELSE QuoteLine(l)),
            hi |-> (IF l.fmt \in {"epytext", "restructuredtext"} THEN AtLine(l) ELSE CloseLine(l)),
-           docline |-> DocstringLine(l), impl |-> ReportedLine(l), doclen |-> DocLen(l)]
+           docline |-> DocstringLine(l), impl |-> ReportedLine(l), impl2 |-> SecondLine(l), doclen |-> DocLen(l)]
 Emit == IF Source = "enum" THEN PrintT(ToJson(Rec(lay)))
         ELSE PrintT(ToJson([id |-> Observed[obs].id,
-                             one |-> Len(Observed[obs].lines) = 1,
-                             ok |-> (Len(Observed[obs].lines) = 1 /\ Observed[obs].lines[1] \in Acceptable(lay)),
-                             kf |-> (Len(Observed[obs].lines) = 1 /\ (\/ KF_RstLineNotConverted(lay, Observed[obs].lines[1])
-                                                                        \/ KF_LeadingWs(lay, Observed[obs].lines[1])
-                                                                        \/ KF_Napoleon(lay, Observed[obs].lines[1])
-                                                                        \/ KF_DocutilsSep(lay, Observed[obs].lines[1]))),
-                             conforms |-> (Len(Observed[obs].lines) = 1 /\ Observed[obs].lines[1] = ReportedLine(lay)),
+                             one |-> Len(ObsLines) = ExpectedCount(lay),
+                             ok |-> ObsAllIn,
+                             kf |-> (~ObsAllIn /\ ObsKnown),
+                             conforms |-> ObsAsModel,
                              lo |-> Rec(lay).lo, hi |-> Rec(lay).hi, impl |-> ReportedLine(lay)]))
 
 \* the k-shift hyper-property on the observation file: two observations whose layouts differ only in k
